@@ -264,6 +264,14 @@ def call_op(op, args, recv, arg, emb, pool):
         return recv.morph(arg, fn)
     if op == "new":
         return recv.new()
+    if op == "construct":
+        textgrid = praatio()[0]
+        padl = (lambda l: "  " + l + " \t") if args["pad"] else (lambda l: l)
+        if args["kind"] == "I":
+            raw = [(g(x["s"]), g(x["e"]), padl(lab_out(x["l"], pool))) for x in args["raw"]]
+            return textgrid.IntervalTier("t", raw, g(args["lo"]), g(args["hi"]))
+        raw = [(g(x["t"]), padl(lab_out(x["l"], pool))) for x in args["raw"]]
+        return textgrid.PointTier("t", raw, g(args["lo"]), g(args["hi"]))
     raise common.MachineryError("unknown op " + op)
 
 
